@@ -621,3 +621,51 @@ def subclass_union_cases(rng):
                 out.append((('dict', ('scalar', 'str'), u), {'k': v}))
                 out.append((('class', holder), {'item': v, 'items': [v]}))
     return out
+
+
+def tagged_shape_cases(rng):
+    """Every layout of a tagged union x every near-valid shape, deterministically (the random stream reaches each shape only a few
+    times per run): valid bodies for each variant, a surplus key next to an otherwise valid value, a missing tag / content key,
+    unknown and ill-kinded and unhashable tags, wrong body kinds, non-mappings.  (term, value) pairs."""
+    import terms
+    out = []
+    for lay in ('internal', 'external', ('adjacent', 't', 'c'), ('adjacent', 'tag', 'content')):
+        for tvs in (['a', 'b'], [1, 'x']):
+            tag = 'kind'
+            variants = []
+            for i, tv in enumerate(tvs):
+                fields = [{'name': 'x', 'ty': ('scalar', 'int')}] if i == 0 else [{'name': 'y', 'ty': ('scalar', 'str'), 'default': ('value', 'd')}]
+                fields.append({'name': tag, 'ty': ('literal', [tv]), 'default': ('value', tv)})
+                variants.append((tv, ('class', {'name': terms.fresh_name('Tv'), 'fields': fields, 'opts': {}, 'hook': None})))
+            term = ('tagged', tag, lay, variants)
+            bodies = [(tvs[0], {'x': 1}), (tvs[0], {'x': 'no'}), (tvs[0], {}), (tvs[1], {'y': 's'}), (tvs[1], {}), (tvs[1], {'y': 2}), (tvs[0], {'x': 1, 'zz': 0}), (tvs[0], [1]), (tvs[1], None)]
+            odd_tags = [None, 'zzz', 1.5, True, [1], {}, (tvs[0],), ([tvs[0]],), 2]
+            vals = [5, 'a', None, [], {}, [tvs[0], {'x': 1}]]
+            for tv, body in bodies:
+                if lay == 'internal':
+                    if isinstance(body, dict):
+                        vals += [{tag: tv, **body}, {**body, tag: tv}, {**body, tag: tv, 'surplus': None}, dict(body)]
+                        vals += [{**body, tag: ot} for ot in odd_tags[:4]]
+                elif lay == 'external':
+                    vals += [{tv: body}, {tv: body, 'surplus': None}, {tv: body, tvs[1] if tv == tvs[0] else tvs[0]: body}, {'zzz': body}]
+                else:
+                    t_r, c_r = lay[1], lay[2]
+                    vals += [{t_r: tv, c_r: body}, {c_r: body, t_r: tv}, {t_r: tv, c_r: body, 'surplus': None}, {t_r: tv, c_r: body, 1: 2, 'more': 3},
+                             {t_r: tv}, {c_r: body}, {t_r: tv, 'surplus': body}, {'surplus': tv, c_r: body}]
+            for ot in odd_tags:
+                if lay == 'internal':
+                    vals += [{tag: ot, 'x': 1}]
+                elif lay == 'external':
+                    try:
+                        vals += [{ot: {'x': 1}}]
+                    except TypeError:
+                        pass
+                else:
+                    vals += [{lay[1]: ot, lay[2]: {'x': 1}}, {lay[1]: ot, lay[2]: {'x': 1}, 'surplus': 0}]
+            for v in vals:
+                out.append((term, v))
+            # the same union one level down: as a list element and as a mapping value
+            for v in vals[6:18]:
+                out.append((('seq', 'list', term), [v]))
+                out.append((('dict', ('scalar', 'str'), term), {'k': v}))
+    return out
